@@ -36,3 +36,16 @@ Example C08_nonvacuous :
   let n2 : obj := list_to_map [(2%N, VInt 5); (3%N, VInt 4)] in
   map_to_list (apply_mod (merge_mod (odiff n o) (odiff n2 n)) o) = map_to_list n2.
 Proof. vm_compute. reflexivity. Qed.
+
+(** Refutation for chains (finding F20): merging is not closed under chaining.  An attribute
+    removed, re-added, then removed again by three queued 'modified' events: merged pairwise
+    the three events cancel out and leave the attribute in place, applied in order they
+    delete it. *)
+Definition f20_o : obj := {[ 1%N := VInt 5 ]}.
+Definition f20_d1 : mdiff := MDiff ∅ ∅ {[ 1%N := VNone ]}.
+Definition f20_d2 : mdiff := MDiff {[ 1%N := VInt 7 ]} ∅ ∅.
+Definition f20_d3 : mdiff := MDiff ∅ ∅ {[ 1%N := VNone ]}.
+Example C08_chain_of_three_refuted :
+  apply_mod f20_d3 (apply_mod f20_d2 (apply_mod f20_d1 f20_o)) !! 1%N = None /\
+  apply_mod (merge_mod (merge_mod f20_d1 f20_d2) f20_d3) f20_o !! 1%N = Some (VInt 5).
+Proof. vm_compute. split; reflexivity. Qed.
